@@ -132,8 +132,12 @@ class P:
                 if s.peek()[0] == 'life': s.eat()
                 if s.at('mut'): s.eat()
                 s.eat('self')
-            elif s.at('mut') and s.at('self', 1): s.eat(); s.eat()
-            elif s.at('self'): s.eat()
+            elif s.at('mut') and s.at('self', 1):
+                s.eat(); s.eat()
+                if s.at(':'): s.eat(); s.ty()
+            elif s.at('self'):
+                s.eat()
+                if s.at(':'): s.eat(); s.ty()
             else:
                 if s.at('mut'): s.eat()
                 pn = s.eat(); s.eat(':'); params.append((pn, s.ty()))
@@ -156,6 +160,8 @@ class P:
     def pat(s):
         if s.at('Some') and s.at('(', 1):
             s.eat(); s.eat('('); p = s.pat(); s.eat(')'); return ('psome', p)
+        if (s.at('Ok') or s.at('Err')) and s.at('(', 1):
+            c = s.eat(); s.eat('('); p = s.pat(); s.eat(')'); return ('pok' if c == 'Ok' else 'perr', p)
         if s.at('None'): s.eat(); return ('pnone',)
         if s.at('_'): s.eat(); return ('pwild',)
         if s.peek()[0] == 'num': return ('pnum', s.eat())
@@ -190,6 +196,13 @@ class P:
             if s.at('while'):
                 s.eat(); c = s.expr(); s.eat('{'); b = s.block(); s.eat('}')
                 stmts.append(('while', c, b)); continue
+            if s.at('loop'):
+                s.eat(); s.eat('{'); b = s.block(); s.eat('}')
+                stmts.append(('loop', b)); continue
+            if s.at('break'):
+                s.eat(); e = ('unit',) if (s.at(';') or s.at('}')) else s.expr()
+                if s.at(';'): s.eat()
+                stmts.append(('break', e)); continue
             if s.at('for'):
                 s.eat(); p = s.pat(); s.eat('in'); it = s.expr_nostruct(); s.eat('{'); b = s.block(); s.eat('}')
                 stmts.append(('for', p, it, b)); continue
@@ -754,6 +767,102 @@ def wiring(repo):
         defs.append('Definition g_succ (k : stage) (hasW : bool) : stage := k.\nDefinition g_pub (k : stage) : stage := P.')
     return defs, problems
 
+# ------------------------------------------------------------------ MRBFuture::poll: symbolic execution of the loop
+def poll_shape(repo):
+    """runs the body of `MRBFuture::poll` on abstract values for every sequence of attempt outcomes: which events (attempt of the stored
+    operation on the borrowed iterator, registration of the polling task's waker) happen in which order, and how the poll ends"""
+    try:
+        txt = strip_comments(open(os.path.join(repo, 'src', 'iterators/async_iterators/mod.rs')).read())
+        item = P(lex(find_fn(txt, 'poll'))).fn_item()
+        body = item[4]
+    except (TErr, ValueError, IndexError, KeyError, OSError) as ex:
+        return [], [f'iterators/async_iterators/mod.rs::poll: outside the analysable subset: {ex}']
+    class Brk(Exception):
+        def __init__(s, v): s.v = v
+    def mentions(e, names):
+        if isinstance(e, tuple): return any(mentions(x, names) for x in e)
+        if isinstance(e, list): return any(mentions(x, names) for x in e)
+        return e in names
+    def run(Rval, oracle):
+        ev = []; env = {}; oi = [0]
+        def is_attempt_call(e):
+            # <stored fn>(self.iter, ..): a call whose callee mentions f_r / f_m and whose first argument is self.iter
+            return e[0] == 'call' and mentions(e[1], ('f_r', 'f_m')) and e[2] and mentions(e[2][0], ('iter',))
+        def val(e):
+            e0 = e
+            while e[0] == 'paren': e = e[1]
+            if e[0] == 'path' and e[1] in (['true'], ['false']): return e[1][0] == 'true'
+            if e[0] == 'path' and len(e[1]) == 1 and e[1][0] in env: return env[e[1][0]]
+            if e[0] == 'path' and e[1] == ['R']: return Rval
+            if is_attempt_call(e):
+                if oi[0] >= len(oracle): raise TErr('poll: more attempts than the analysis allows')
+                ok = oracle[oi[0]]; oi[0] += 1; ev.append('PAttempt'); return ('attempt', ok)
+            if e[0] == 'mcall' and e[2] == 'ok_or': return val(e[1])
+            if e[0] == 'mcall' and e[2] == 'register_waker':
+                ev.append('PRegister'); return None
+            if e[0] == 'if':
+                c = val(e[1])
+                if not isinstance(c, bool): raise TErr('poll: condition that is neither R nor a tracked flag')
+                return blk(e[2] if c else (e[3] or []))
+            if e[0] == 'match':
+                c = val(e[1])
+                if not (isinstance(c, tuple) and c[0] == 'attempt'): raise TErr('poll: match on something that is not an attempt result')
+                for pat, b in e[2]:
+                    if (pat[0] in ('pok', 'psome')) == c[1]: return blk(b)
+                raise TErr('poll: match without a matching arm')
+            if e[0] == 'unsafe': return blk(e[1])
+            # anything else must not hide an attempt or a registration
+            if mentions(e, ('register_waker',)) or (mentions(e, ('f_r', 'f_m')) and mentions(e, ('iter',)) and e[0] not in ('mcall', 'path', 'field')):
+                raise TErr('poll: attempt / registration in an unexpected position')
+            if e[0] == 'mcall' and mentions(e[1], ('f_r', 'f_m')) and e[2] in ('take', 'as_ref', 'unwrap'): return None
+            return None
+        def blk(stmts):
+            r = None
+            for st in stmts:
+                t = st[0]
+                if t == 'let':
+                    v = val(st[2])
+                    if st[1][0] == 'pvar': env[st[1][1]] = v
+                    r = None
+                elif t == 'assign':
+                    tgt = st[1]
+                    if tgt[0] == 'path' and len(tgt[1]) == 1:
+                        env[tgt[1][0]] = val(st[2])
+                    r = None
+                elif t in ('expr', 'tail'):
+                    r = val(st[1])
+                elif t == 'break':
+                    e = st[1]
+                    name = 'PReady' if mentions(e, ('Ready',)) else ('PPending' if mentions(e, ('Pending',)) else None)
+                    if name is None: raise TErr('poll: break with an unknown value')
+                    raise Brk(name)
+                elif t == 'loop':
+                    for _ in range(6):
+                        blk(st[1])
+                    raise TErr('poll: the loop does not end within 6 rounds')
+                elif t == 'return':
+                    e = st[1]
+                    name = 'PReady' if mentions(e, ('Ready',)) else ('PPending' if mentions(e, ('Pending',)) else None)
+                    if name is None: raise TErr('poll: return with an unknown value')
+                    raise Brk(name)
+                elif t == 'fn': pass
+                else: raise TErr('poll: statement ' + t)
+            return r
+        try:
+            blk(body)
+        except Brk as b:
+            return ev, b.v
+        raise TErr('poll: the body ends without a result')
+    shapes = []; problems = []
+    try:
+        for oracle in ([True], [False, True], [False, False]):
+            a = run(True, oracle); b = run(False, oracle)
+            if a != b: raise TErr(f'poll: the by-reference and by-value forms differ on outcomes {oracle}: {a} vs {b}')
+            shapes.append((oracle, a[0], a[1]))
+    except (TErr, ValueError, IndexError, KeyError) as ex:
+        problems.append(f'iterators/async_iterators/mod.rs::poll: {ex}')
+    return shapes, problems
+
 def main(repo, outdir):
     defs, problems = translate(repo)
     lines = ['(* GENERATED by tools/data_translate.py from /repo/src on every run - do not edit *)',
@@ -771,6 +880,16 @@ def main(repo, outdir):
     for p in problems: lines.append(f'(* PROBLEM: {p} *)')
     os.makedirs(outdir, exist_ok=True)
     open(os.path.join(outdir, 'DataFns.v'), 'w').write('\n'.join(lines) + '\n')
+    sh, shp = poll_shape(repo)
+    b = lambda x: 'true' if x else 'false'
+    pl = ['(* GENERATED by tools/data_translate.py from /repo/src on every run - do not edit *)',
+          'From Coq Require Import List Bool.', 'Import ListNotations.', 'Require Import MRB.Model.PollShape.', '',
+          '(* MRBFuture::poll executed on abstract values: (outcomes of the attempts, events in order, how the poll ends) *)',
+          'Definition poll_shape : list (list bool * list pev * pend) := [' +
+          '; '.join('([' + '; '.join(b(o) for o in orc) + '], [' + '; '.join(evs) + '], ' + end + ')' for orc, evs, end in sh) + '].',
+          f'Definition poll_clean : bool := {b(not shp)}.'] + [f'(* PROBLEM: {x} *)' for x in shp]
+    open(os.path.join(outdir, 'PollGen.v'), 'w').write('\n'.join(pl) + '\n')
+    problems = problems + shp
     # the same functions as compiled with --features vmem (next_chunk*, _push_slice, _extract_slice have their own bodies there)
     vdefs, vproblems = translate(repo, vmem=True)
     vlines = ['(* GENERATED by tools/data_translate.py from /repo/src on every run (the bodies compiled with feature vmem) - do not edit *)',
